@@ -40,6 +40,7 @@ type ProtoRun struct {
 	Members  []int
 	NewIDKs  []*big.Int
 	ackType  string
+	signKeys []eckg.LocalPartySaveData // key data handed to the ECDSA signers (subset order)
 	Sample   map[string]interface{}
 	NoProofs bool
 }
@@ -295,6 +296,9 @@ func (rc *RunCtx) SetupProto(tag string, quiet bool) *ProtoRun {
 			for i := range use {
 				use[i] = pre[(i+sc.Int("preoff", 0))%len(pre)]
 			}
+			if rc.InputHook != nil {
+				rc.InputHook("ec-keygen-pre", use)
+			}
 			pr.Nodes = w.AddECKeygen(idk, pr.T, use, ECKeygenOpts{NoProofMod: pr.NoProofs, NoProofFac: pr.NoProofs})
 		}
 	case "sign":
@@ -308,10 +312,19 @@ func (rc *RunCtx) SetupProto(tag string, quiet bool) *ProtoRun {
 		pr.W = w
 		if pr.Curve == "ed" {
 			pr.Msg, pr.Full = edMessage(srng, sc.Str("msg", "b32"))
-			pr.Nodes = w.AddEdSigning(spids, edKeysFor(spids, pr.edKeys), pr.T, pr.Msg, pr.Full)
+			sk := edKeysFor(spids, pr.edKeys)
+			if rc.InputHook != nil {
+				rc.InputHook("ed-sign-keys", sk)
+			}
+			pr.Nodes = w.AddEdSigning(spids, sk, pr.T, pr.Msg, pr.Full)
 		} else {
 			pr.Msg, pr.Full = ecDigest(srng, sc.Str("msg", "random"))
-			pr.Nodes = w.AddECSigning(spids, ecKeysFor(spids, pr.ecKeys), pr.T, pr.Msg, pr.Full, nil)
+			sk := ecKeysFor(spids, pr.ecKeys)
+			if rc.InputHook != nil {
+				rc.InputHook("ec-sign-keys", sk)
+			}
+			pr.signKeys = sk
+			pr.Nodes = w.AddECSigning(spids, sk, pr.T, pr.Msg, pr.Full, nil)
 		}
 	case "reshare":
 		part := sc.Int("oldpart", pr.T+1)
@@ -339,6 +352,9 @@ func (rc *RunCtx) SetupProto(tag string, quiet bool) *ProtoRun {
 				use[i] = pre[(i+sc.Int("preoff", 0))%len(pre)]
 			}
 			pr.ecOldIn = ecKeysFor(opids, pr.ecKeys)
+			if rc.InputHook != nil {
+				rc.InputHook("ec-reshare-pre", use)
+			}
 			pr.Olds, pr.News = w.AddECResharing(opids, pr.ecOldIn, pr.T, pr.NewIDKs, pr.NewT, use, ECKeygenOpts{NoProofMod: pr.NoProofs, NoProofFac: pr.NoProofs})
 			pr.ackType = "ecdsa.resharing.DGRound4Message2"
 		}
